@@ -12,6 +12,8 @@
 //! (token, slice length) it stands for.
 //! Correspondence: `longest_match` calls recorded through the `verif_lm` recorder are replayed on the
 //! Gallina model (Cache/Model.v): evaluated options, cache hits, chosen option.
+//! c13x.rs (module `ext`): the pruning decision on generated `prune_options` calls (group `prune`), the audit
+//! of first-token hints, grammar-directed sentences into every option of K, placeholder-templated inputs.
 //! Static part: the cache keys of all nodes that can be options of `longest_match` (set K) are written
 //! to coq/gen/Keys_<d>.v where `keys_inj_b` is evaluated by vm_compute.
 use std::collections::{BTreeMap, BTreeSet, HashMap};
@@ -25,6 +27,9 @@ use sqruff_lib_core::parser::match_algorithms::verif_switches::{self, LmFrame};
 
 use crate::c14::{Graph, Node, dialect_of, parse_with};
 use crate::common::*;
+
+#[path = "c13x.rs"]
+mod ext;
 
 #[derive(Clone)]
 struct Item {
@@ -292,6 +297,8 @@ fn watchdog(out_path: std::path::PathBuf, limit_s: u64) {
                         None => w.last_progress = now,
                     }
                     let cpu_s = (w.last_ticks - w.start_ticks) / TICKS_PER_S;
+                    // small inputs (templated ones) carry their own, shorter limit
+                    let limit_s = w.v["cpu_limit_s"].as_u64().unwrap_or(limit_s);
                     let why = if cpu_s > limit_s {
                         Some(format!("parse did not finish within {} s of CPU time", limit_s))
                     } else if asleep && now.duration_since(w.last_progress).as_secs() > 60 {
@@ -1098,6 +1105,17 @@ pub fn main(args: &Args) {
         let v: Value = serde_json::from_str(&std::fs::read_to_string(path).unwrap()).unwrap();
         let dname = v["dialect"].as_str().unwrap_or("ansi").to_string();
         let mut buf = Buf::default();
+        if v["kind"] == "prune" || v["kind"] == "templated" {
+            watchdog(args.out.clone(), 240);
+            if v["kind"] == "prune" {
+                ext::replay_prune(&sh, &v, &mut buf);
+            } else {
+                ext::run_templated(&mut ext::Linters::new(), &ext::titem_from_json(&v), &mut buf);
+            }
+            out.absorb(buf);
+            out.finish();
+            return;
+        }
         if v["recipe"].is_object() {
             // a big input: rebuilt from its recipe
             watchdog(args.out.clone(), 600);
@@ -1122,6 +1140,23 @@ pub fn main(args: &Args) {
     }
     static_keys(&mut out, &gen_dir);
     watchdog(args.out.clone(), if args.thorough() { 600 } else { 240 });
+
+    // the pruning decision on generated calls, hint audit; grammar-directed sentences; templated inputs (c13x.rs)
+    let aimed = ext::grammar_stage(&sh, args, &mut out);
+    let templated = ext::gen_templated(args);
+    if let Some(only) = args.flag("--only") {
+        // development aid: one of the c13x.rs parts alone
+        if let Some(f) = args.flag("--dump-sentences") {
+            let _ = std::fs::write(f, aimed.iter().map(|i| format!("{}\t{}\t{}\t{}", i.dialect, i.cls, i.name, i.sql)).collect::<String>());
+        }
+        if only == "grammar" {
+            par_run(&mut out, &aimed, || (), |_, it, buf| run_item_light(&sh, it, buf));
+        } else {
+            par_run(&mut out, &templated, ext::Linters::new, |st, it, buf| ext::run_templated(st, it, buf));
+        }
+        out.finish();
+        return;
+    }
 
     let mut items = gen_items(args);
     // slice-length straddles derived from the inputs; big inputs (generated shapes + 2^16 straddles)
@@ -1148,6 +1183,8 @@ pub fn main(args: &Args) {
         let h = sc.spawn(move || run_bigs(sh, bigs, conc));
         par_run(&mut out, &items, || (), |_, it, buf| run_item(sh, it, buf));
         par_run(&mut out, &cross_all, || (), |_, it, buf| run_item_light(sh, it, buf));
+        par_run(&mut out, &aimed, || (), |_, it, buf| run_item_light(sh, it, buf));
+        par_run(&mut out, &templated, ext::Linters::new, |st, it, buf| ext::run_templated(st, it, buf));
         h.join().unwrap()
     });
     for b in big_bufs {
